@@ -100,7 +100,8 @@ def read2 : (n : Nat) → (rest : List Nat) → (pos : Nat) → (prev : Int) →
 def readW : List Nat → Outcome (List (Nat × Nat))
   | 1 :: n :: rest => read1 n rest 0 (-1)
   | 2 :: n :: rest => read2 n rest 0 (-1)
-  | [_] => .err eIO
+  | 1 :: _ => .err eIO
+  | 2 :: _ => .err eIO
   | [] => .err eIO
   | _ => .err eUnsupported
 
@@ -129,7 +130,8 @@ def readSet2 : (n : Nat) → (rest : List Nat) → (pos : Nat) → (prev : Int) 
 def readSetW : List Nat → Outcome (List Nat)
   | 1 :: n :: rest => readSet1 n rest
   | 2 :: n :: rest => readSet2 n rest 0 (-1)
-  | [_] => .err eIO
+  | 1 :: _ => .err eIO
+  | 2 :: _ => .err eIO
   | [] => .err eIO
   | _ => .err eUnsupported
 
